@@ -9,7 +9,7 @@ python3 tools/extract_tables.py || true
 # function translator (Rust bodies -> lean/JL/Generated/Fns.lean) and the tie theorems over what it produced
 (cd lean && lake build JL.Rs) || true
 python3 tools/rs2lean.py || true
-(cd lean && lake build $(ls JL/Tie/*.lean | sed 's/\.lean$//; s/\//./g')) || true
+(cd lean && lake build $(ls JL/Tie/*.lean | sed 's/\.lean$//; s/\//./g') JL.Props.Translated) || true
 [ -f harness/Cargo.lock ] || cp /repo/Cargo.lock harness/Cargo.lock
 (cd harness && CARGO_TARGET_DIR=/verif/build/target cargo build --offline --quiet && CARGO_TARGET_DIR=/verif/build/target cargo build --offline --quiet --release) || true
 (cd /repo && cargo build --offline --quiet --features cmdline --target-dir /verif/build/cli-target) || true
